@@ -152,6 +152,16 @@ ConvOutcomeOk(tok, ty, o) ==
 ConvJudge(r) ==
   r.obs.r = "skip" \/ (r.obs.r = "conv" /\ r.obs.byval = r.obs.byref /\ ConvOutcomeOk(r.tok, r.ty, r.obs.byval))
 
+\* C07/C10 for sessions too large for the full stream semantics (buffers above 2^16 bytes): the monitors,
+\* the end conditions, and identical handlers / errors / response bytes for every delivery schedule
+ProcDiffJudge(r) ==
+  LET vs == r.obs.v
+      ref == Proj(vs[1], "write")
+  IN [ok |-> /\ \A k \in 1..Len(vs) : ProcMonitors(vs[k]) /\ EndOk(r.N, vs[k])
+             /\ \A k \in 2..Len(vs) : Proj(vs[k], "write") = ref
+             /\ ("expect_out" \in DOMAIN r => ref.out = r.expect_out),
+      free |-> FALSE]
+
 \* [ok, free] of one line
 Judge(r) ==
   CASE r.kind = "run" ->
@@ -162,6 +172,7 @@ Judge(r) ==
     [] r.kind = "errtable" -> [ok |-> ErrTableOk(r.obs), free |-> FALSE]
     [] r.kind = "queue" -> [ok |-> QueueLine(r, carry).ok, free |-> FALSE]
     [] r.kind = "procset" -> ProcSetJudge(r)
+    [] r.kind = "procdiff" -> ProcDiffJudge(r)
     [] r.kind = "runset" -> RunSetJudge(r)
     [] r.kind = "multi" -> MultiJudge(r)
     [] r.kind = "failset" -> FailSetJudge(r)
